@@ -439,6 +439,64 @@ def defaults_table(repo):
     return {"Defaults.lean": {"changed": changed, "table": t}}
 
 
+def proxy_fast_paths(repo):
+    """Every place where a list / dict proxy takes the items of another proxy without validating them (an `if` whose test asks
+    `isinstance(x, ListProxy|DictProxy)`, outside `__eq__`), and whether that test also requires the other proxy to belong to the
+    same configuration (`x.cfg is …`, or `_is_compatible_proxy(x)` whose body compares the two `cfg`s by identity)."""
+    out = []
+    for modname, classes in (("fields/list_field.py", ("ListProxy", "ListField")), ("fields/dict_field.py", ("DictProxy", "DictField"))):
+        mod = _parse(repo, modname)
+
+        def cfg_identity(node):
+            for n in ast.walk(node):
+                if isinstance(n, ast.Compare) and len(n.ops) == 1 and isinstance(n.ops[0], ast.Is):
+                    sides = [n.left] + list(n.comparators)
+                    if any(isinstance(x, ast.Attribute) and x.attr == "cfg" for x in sides):
+                        return True
+            return False
+
+        compat = {}
+        for cname in classes:
+            try:
+                cls = _class(mod, cname)
+            except Unknown:
+                continue
+            for node in cls.body:
+                if isinstance(node, ast.FunctionDef) and node.name == "_is_compatible_proxy":
+                    compat[cname] = cfg_identity(node)
+        for cname in classes:
+            cls = _class(mod, cname)          # Unknown if a class of the anchored API is gone: the obligation is then not established
+            for fn in cls.body:
+                if not isinstance(fn, ast.FunctionDef) or fn.name in ("__eq__", "__ne__", "_is_compatible_proxy"):
+                    continue
+                n_here = 0
+                for node in ast.walk(fn):
+                    if not isinstance(node, (ast.If, ast.IfExp)):
+                        continue
+                    test = node.test
+                    asks = any(isinstance(c, ast.Call) and isinstance(c.func, ast.Name) and c.func.id == "isinstance" and len(c.args) == 2
+                               and any(isinstance(a, ast.Name) and a.id in ("ListProxy", "DictProxy") for a in ast.walk(c.args[1]))
+                               for c in ast.walk(test))
+                    if not asks:
+                        continue
+                    guarded = cfg_identity(test) or any(isinstance(c, ast.Call) and isinstance(c.func, ast.Attribute) and c.func.attr == "_is_compatible_proxy"
+                                                        and compat.get(cname, False) for c in ast.walk(test))
+                    n_here += 1
+                    out.append(("%s.%s#%d" % (cname, fn.name, n_here), guarded))
+    return out
+
+
+def fast_paths_table(repo):
+    t = proxy_fast_paths(repo)
+    lines = ["/- GENERATED by harness/extract.py from /repo on every run — do not edit. -/", "namespace Cinco.Generated", "",
+             "/-- every unvalidated fast path of the list / dict proxies for another proxy's items, and whether its test requires the same",
+             "    owning configuration (read off the source) -/",
+             "def proxyFastPaths : List (String × Bool) := [%s]" % ", ".join("(%s, %s)" % (lstr(k), "true" if v else "false") for k, v in t),
+             "", "end Cinco.Generated"]
+    changed = _write("FastPaths.lean", "\n".join(lines) + "\n")
+    return {"FastPaths.lean": {"changed": changed, "table": t}}
+
+
 def run(repo):
     notes = {}
     notes.update(tables(repo))
@@ -446,6 +504,7 @@ def run(repo):
     notes.update(effects(repo))
     notes.update(stub_effects(repo))
     notes.update(defaults_table(repo))
+    notes.update(fast_paths_table(repo))
     return notes
 
 
